@@ -73,6 +73,8 @@ def fourier_phasor(wave: str, A: float, phi: float, n: int) -> complex:
 
 def _active(w: float, ws: float, w_res: float) -> bool:
     d = abs(w - ws)
+    if d == 0:
+        return True         # bit-identical frequencies are "the source's own frequency" for every resolution >= 0
     if abs(d - w_res) <= 1e-6 * w_res + 1e-9 * max(abs(w), abs(ws)):
         raise Boundary()
     return d <= w_res
@@ -157,6 +159,8 @@ def branch_of(c, w: float, w_res: float = 1e-3):
     if k in ('periodic_voltage_source', 'periodic_current_source'):
         w0 = a['w']
         n = int(round(w / w0))
+        if w_res == 0 and w != 0:
+            raise Boundary()    # exact matching of a harmonic depends on how w / w0 rounds: not judged
         if n < 0 or not _active(w, n * w0, w_res):
             return dict(base, kind='short' if k == 'periodic_voltage_source' else 'open', p={})
         amp = a['V'] if k == 'periodic_voltage_source' else a['I']
